@@ -44,6 +44,9 @@ def r1_r2(ctx):
         t = types[TYPE[name]]
         outs = dt.eval_inline(fn, pdb, {1: modes["RTR_INTERVAL_MODE_ACCEPT_ANY"], 2: lo, 3: t}, {"apply_interval_value"}, watch={"rtr_check_interval_range"})
         got = {e[2][1:] for o in outs for e in o["events"] if e[0] == "call"}
+        if got and all(a is None and b is None for (a, b) in got):
+            raise AnalysisBroken("rtr_check_interval_option: the bounds handed to rtr_check_interval_range are not constants the evaluation can follow "
+                                 "(for instance copied out of a local table): the interval decision table cannot be evaluated")
         ctx.check(got == {(lo, hi)}, "C17.R1", "option:%s-range" % name, "%s:%d" % (fn.relfile, fn.line),
                   "range used for %s: %s (RFC: %d..%d)" % (name, sorted(got), lo, hi), key="C17.R1:option:%s" % name)
     ncell = 0
@@ -266,6 +269,8 @@ def r5(ctx, retsets):
         uses_end = any(vf.mentions(te, lambda x, k=k: x == ("load", vf.expr(lf, k.args[0]))) for k in before)
         end_has_timeout = any(i.op == "store" and any(vf.expr(lf, i["ptr"]) == vf.expr(lf, k.args[0]) for k in before) and
                               vf.mentions(vf.expr(lf, i["val"]), lambda x: x == ("arg", 3)) for i in lf.all_insts())
+        # the deadline = a clock reading taken before the loop plus the timeout: kept in the variable (stored back) or formed in the expression
+        end_has_timeout = end_has_timeout or vf.mentions(te, lambda x: x == ("arg", 3))
         good = bool(bodies) and uses_now and uses_end and end_has_timeout
         ctx.check(good, "C17.R5", "%s:remaining-time-per-attempt" % lname, a.loc(),
                   "timeout of each attempt = %s; derived from a clock reading inside the loop: %s; from the deadline (clock before the loop + timeout): %s" % (
